@@ -258,7 +258,21 @@ def tip_table(tier="quick"):
                         b = dict(id="B", start=11, seq=["GLY", "GLY"], phi=[-65.0] * 2, psi=[150.0, 140.0], chi=[chi] * 2, hyd="none",
                                  oxt=True, q=[1, 0.3, 0.1, 0.2], ter=True,
                                  contact=dict(target=t, dir=[0.1 * ci, 0.05 * gi, 0.02], gap=gap, tip=True))
-                        out.append(dict(chains=[a, b], waters=[]))
+                        out.append(dict(desc=dict(chains=[a, b], waters=[]), opts=[]))
+    # second family: the tip atom itself is LEFT OUT of the input and the other chain sits where it
+    # will be rebuilt, under every debump/optimisation mode (a rebuilt atom in a clash is what the
+    # first debumping pass reacts to; with --nodebump nothing may move)
+    modes = [[], ["--nodebump"], ["--noopt"], ["--nodebump", "--noopt"]]
+    for x, tips in sorted(build.TIP_ATOMS.items()):
+        for t, (tip_name, _prev) in enumerate(tips):
+            for gi, gap in enumerate([1.3, 1.9] if tier == "quick" else [1.2, 1.5, 1.8, 2.1, 2.4]):
+                for mi, mode in enumerate(modes):
+                    a = dict(id="A", start=1, seq=["GLY", x, "GLY"], phi=[-70.0] * 3, psi=[140.0, 135.0, 145.0], chi=[chis[(gi + mi) % 2]] * 3,
+                             hyd="none", oxt=True, q=[1, 0.1 * mi, 0.2, 0.3], ter=True, drop=[[1, tip_name]])
+                    b = dict(id="B", start=11, seq=["GLY", "GLY"], phi=[-65.0] * 2, psi=[150.0, 140.0], chi=[chis[0]] * 2, hyd="none",
+                             oxt=True, q=[1, 0.3, 0.1, 0.2], ter=True,
+                             contact=dict(target=0, dir=[0.1 * mi, 0.05 * gi, 0.02], gap=gap, tip="dropped"))
+                    out.append(dict(desc=dict(chains=[a, b], waters=[]), opts=list(mode)))
     return out
 
 
